@@ -280,6 +280,14 @@ def result_pipeline(cx: Cx, fn, paths: List[Path], p: Path, ret: Term, table=Non
                                   isinstance(strip_versions(pool_t.args[0]), App) and 'Pool' in repr(strip_versions(pool_t.args[0]))[:60]):
             return (f"the pool arm maps over {pool_t!r}, which is not a Pool created in this call: worker processes kept between calls "
                     f"run later sweeps in a stale copy of the process")
+        # ... with as many workers as the caller asked for: `processes` goes to Pool() as it came (None means "all cores", and an
+        # empty work list still is a legal sweep - Pool(min(processes, len(work))) raises for both)
+        pc = strip_versions(pool_t.args[0]) if isinstance(pool_t, App) and pool_t.fn == '.__enter__' and pool_t.args else pool_t
+        if isinstance(pc, App) and pc.fn in ('call', 'new') and pc.args and isinstance(pc.args[0], Sym) and pc.args[0].name.rsplit('.', 1)[-1] == 'Pool':
+            given = list(pc.args[1:]) + [v_ for k_, v_ in (pc.kw or ()) if k_ == 'processes']
+            if 'processes' in fn.params and given != [Sym('processes')]:
+                return (f"the pool is created with {given!r} worker processes, not with the caller's `processes` as given: None (all "
+                        f"cores) or an empty work list now raise although the serial arm answers")
         # ... provided it is at least 1 (Pool.imap raises ValueError for 0; Pool.map takes None as "choose for me")
         chunks = list(src.args[3:]) + [cv for k, cv in (src.kw or ()) if k == 'chunksize']
         for cz in chunks:
